@@ -31,6 +31,7 @@ class TaskModel:
         self.rows = rows
         self.barvars = barvars
         self.symmats = 0
+        self.vars = 0
         self.log = []
 
     def call(self, node, it):
@@ -52,6 +53,16 @@ class TaskModel:
             n = len(args[0]) if isinstance(args[0], list) else 1
             self.barvars += n
             return None
+        if nm == "appendvars":
+            if not (len(args) == 1 and isinstance(args[0], int)):
+                raise AnalysisError("appendvars(%s)" % (args,))
+            self.log.append(("appendvars", args[0], self.vars))
+            self.vars += args[0]
+            return None
+        if nm in ("getmaxnumvar", "getnumvar"):
+            return self.vars
+        if nm in ("getnumbarvar", "getmaxnumbarvar"):
+            return self.barvars
         if nm == "appendsparsesymmat":
             self.symmats += 1
             return ("symmat", self.symmats, tuple(_freeze(a) for a in args))
@@ -247,6 +258,52 @@ def r_mosek_rows(ctx, senses=None):
     ctx.count("MOSEK row programs unrolled", n)
     ctx._mosek_rows_done = n
     return n
+
+
+def r_mosek_vars(ctx):
+    """set_main_variables followed by generate_problem on one task (assertions evaluated): the Gram matrix is matrix variable 0 with one row per
+    leaf point, there is one free scalar variable per leaf expression (the column the translation of an expression addresses), and the problem
+    that set_main_variables builds passes the consistency assertion of generate_problem."""
+    repo = ctx.repo
+    mb = _be(repo, "mosek")
+    fn, gp = mb.methods["set_main_variables"], mb.methods["generate_problem"]
+    ctx.unit(qualname(fn))
+    NPT, NEX = 3, 4
+    task = TaskModel(rows=0, barvars=0)
+    env = {"Point.counter": NPT, "Expression.counter": NEX, "self.verbose": 0, "np.int8": "int8"}
+    it = IndexInterp(env, on_call=lambda nd, i0, task=task: _both(nd, i0, task), check_asserts=True)
+    msg = None
+    try:
+        _prime_self_state(it, mb)
+        it.run(fn.body)
+        bv = [c for c in task.log if c[0] == "appendbarvars"]
+        free = {}
+        for c in task.log:
+            if c[0] == "putvarbound" and len(c[1]) >= 2:
+                free.setdefault(c[1][0], []).append(c[1][1])
+        if not (bv and bv[0][1] == [NPT] and bv[0][2] == 0) or len(bv) != 1:
+            msg = "matrix variables appended by set_main_variables: %s; expected exactly the Gram matrix, of dimension Point.counter, as matrix variable 0" % [c[1:] for c in bv]
+        elif task.vars < NEX:
+            msg = "%d scalar variables for %d leaf expressions" % (task.vars, NEX)
+        else:
+            notfree = [k for k in range(NEX) if free.get(k) != [("attr", "mosek.boundkey.fr")]]
+            if notfree:
+                msg = "the variable of leaf expression %d is bounded by %s, expected free (appended variables are fixed at zero by default)" % (notfree[0], free.get(notfree[0]))
+        if msg is None:
+            # generate_problem on the same task, with a symbolic objective
+            it.symbolic.add(params_of(gp)[1])
+            try:
+                it.run(gp.body)
+            except AnalysisError as e:
+                if "raises" in str(e):
+                    msg = "generate_problem raises on the problem set_main_variables has just built: %s" % e
+                else:
+                    raise
+    except AnalysisError as e:
+        raise AnalysisError("MOSEK main variables not interpretable: %s" % e)
+    ctx.ob("R-MOSEKROW", "MosekWrapper.set_main_variables / generate_problem (unrolled)", msg is None,
+           "Gram matrix = matrix variable 0 (Point.counter rows), one free scalar variable per leaf expression, generate_problem's assertion holds" if msg is None else msg, loc(fn, fn))
+    return 1
 
 
 def _both(node, it, task):
